@@ -27,7 +27,11 @@ def _reparse(stream):
 def _check_roundtrip(sf) -> bool:
     """the five parameter-level assertions of C01 on an SM simfile object"""
     global LAST
+    before = (list(sf.items()), [(list(c.items()), list(c.extradata or [])) for c in sf.charts])
     stream, text, gaps, idxs = record(sf)
+    if before != (list(sf.items()), [(list(c.items()), list(c.extradata or [])) for c in sf.charts]):
+        LAST = ("serializing changed the simfile",)
+        return False
     items = list(sf.items())
     ncharts = len(sf.charts)
     LAST = ("stream", stream, "text", text)
